@@ -6,6 +6,8 @@
   The instruction-level monitor (real dispatch) re-checks the same structure after every instruction.
 -/
 import Mfi.Model.Account
+import Mfi.Model.Transfer
+import Mfi.Gen.TxLists
 import Mfi.Model.Bank
 import Mfi.Lemmas.FxL
 import Mfi.Lemmas.ResL
@@ -283,9 +285,140 @@ theorem handlers_sort_after_change :
        | some i, some j => decide (i < j)
        | _, _ => false) = true := by decide
 
+/-! ### a transfer moves all positions to exactly one new account, once -/
+
+section transfer
+open Mfi.Transfer
+
+/-- **transfer_moves_everything**: a successful transfer hands the whole position array (every slot, with its
+    shares, tag, emissions and timestamps), the emissions destination and the flag word to the new account under
+    the new authority, leaves the old account with sixteen empty slots, disabled, linked to the new key — and it
+    only happens for an un-migrated account outside flash loans and receivership, on the signer's authority. -/
+theorem transfer_moves_everything {old o' n : MAcct} {oldKey g ga cfw signer newKey newAuth fw : Nat} {p : Bool} {now : Int}
+    (h : transfer old oldKey g ga cfw p signer newKey newAuth fw now = .ok (o', n)) :
+    n.slots = old.slots ∧ n.authority = newAuth ∧ n.group = old.group ∧ n.emisDest = old.emisDest ∧
+    n.migratedFrom = oldKey ∧ n.migratedTo = 0 ∧
+    (n.disabled, n.flash, n.recv, n.frozen, n.otherFlags) = (old.disabled, false, false, old.frozen, old.otherFlags) ∧
+    o'.slots = zeroedSlots ∧ (∀ x ∈ o'.slots, x.active = false) ∧ o'.disabled = true ∧ o'.migratedTo = newKey ∧
+    o'.authority = old.authority ∧
+    old.migratedTo = 0 ∧ p = false ∧ old.group = g ∧
+    Auth.isSignerAuthorized (view old) ga signer false = true := by
+  unfold transfer at h
+  split at h; · cases h
+  split at h; · cases h
+  split at h; · cases h
+  split at h; · cases h
+  split at h; · cases h
+  split at h; · cases h
+  split at h; · cases h
+  split at h; · cases h
+  rename_i h1 h2 h3 h4 h5 h6 h7 h8
+  injection h with h
+  injection h with ho hn
+  subst ho; subst hn
+  have hf : old.flash = false := by simpa using h6
+  have hr : old.recv = false := by simpa using h7
+  refine ⟨rfl, rfl, rfl, rfl, rfl, rfl, ?_, rfl, ?_, rfl, rfl, rfl, ?_, ?_, ?_, ?_⟩
+  · simp [hf, hr]
+  · intro x hx
+    have := List.eq_of_mem_replicate (show x ∈ List.replicate 16 emptySlot from hx)
+    subst this; rfl
+  · simpa using h8
+  · simpa using h1
+  · simpa using h2
+  · simpa using h4
+
+/-- **transfer_once**: once an account has been transferred to a real (non-default) key, every further transfer
+    of it is refused, whoever signs, whatever the target -/
+theorem transfer_once {old o' n : MAcct} {oldKey g ga cfw signer newKey newAuth fw : Nat} {p : Bool} {now : Int}
+    (h : transfer old oldKey g ga cfw p signer newKey newAuth fw now = .ok (o', n)) (hk : newKey ≠ 0) :
+    ∀ oldKey' g' ga' cfw' p' signer' newKey' newAuth' fw' now',
+      ∃ e, transfer o' oldKey' g' ga' cfw' p' signer' newKey' newAuth' fw' now' = .error e := by
+  have hm := (transfer_moves_everything h).2.2.2.2.2.2.2.2.2.2.1
+  intro oldKey' g' ga' cfw' p' signer' newKey' newAuth' fw' now'
+  unfold transfer
+  split; · exact ⟨_, rfl⟩
+  split; · exact ⟨_, rfl⟩
+  split; · exact ⟨_, rfl⟩
+  split; · exact ⟨_, rfl⟩
+  split; · exact ⟨_, rfl⟩
+  split; · exact ⟨_, rfl⟩
+  split; · exact ⟨_, rfl⟩
+  split; · exact ⟨_, rfl⟩
+  rename_i h8
+  exfalso; apply h8; rw [hm]; exact hk
+
+/-- a migrated account stays migrated: `transfer` is the only step of the model that writes `migratedTo`, and it
+    only ever writes it from 0 — so over ANY sequence of transfer attempts on one account (any signers, targets,
+    times) at most one succeeds. `attempts` runs the attempts in order on the evolving old account and counts. -/
+def attempts (oldKey g ga cfw : Nat) : MAcct → List (Bool × Nat × Nat × Nat × Nat × Int) → Nat
+  | _, [] => 0
+  | a, (p, signer, newKey, newAuth, fw, now) :: rest =>
+    match transfer a oldKey g ga cfw p signer newKey newAuth fw now with
+    | .ok (a', _) => 1 + attempts oldKey g ga cfw a' rest
+    | .error _ => attempts oldKey g ga cfw a rest
+
+theorem migrated_never_again (oldKey g ga cfw : Nat) :
+    ∀ (l : List (Bool × Nat × Nat × Nat × Nat × Int)) (a : MAcct), a.migratedTo ≠ 0 → attempts oldKey g ga cfw a l = 0 := by
+  intro l
+  induction l with
+  | nil => intro a _; rfl
+  | cons x rest ih =>
+    intro a ha
+    obtain ⟨p, signer, newKey, newAuth, fw, now⟩ := x
+    unfold attempts
+    cases ht : transfer a oldKey g ga cfw p signer newKey newAuth fw now with
+    | error e => exact ih a ha
+    | ok r =>
+      obtain ⟨a', n⟩ := r
+      exact absurd (transfer_moves_everything ht).2.2.2.2.2.2.2.2.2.2.2.2.1 ha
+
+/-- **transfer_at_most_once** (every history of attempts, new keys being real keys) -/
+theorem transfer_at_most_once (oldKey g ga cfw : Nat) :
+    ∀ (l : List (Bool × Nat × Nat × Nat × Nat × Int)) (a : MAcct), (∀ x ∈ l, x.2.2.1 ≠ 0) → attempts oldKey g ga cfw a l ≤ 1 := by
+  intro l
+  induction l with
+  | nil => intro a _; exact Nat.zero_le _
+  | cons x rest ih =>
+    intro a hall
+    obtain ⟨p, signer, newKey, newAuth, fw, now⟩ := x
+    unfold attempts
+    cases ht : transfer a oldKey g ga cfw p signer newKey newAuth fw now with
+    | error e => exact ih a (fun y hy => hall y (List.mem_cons_of_mem _ hy))
+    | ok r =>
+      obtain ⟨a', n⟩ := r
+      have hk : newKey ≠ 0 := hall _ (List.mem_cons_self ..)
+      have hm := (transfer_moves_everything ht).2.2.2.2.2.2.2.2.2.2.1
+      have := migrated_never_again oldKey g ga cfw rest a' (by rw [hm]; exact hk)
+      simp only
+      omega
+
+open Mfi.Gen.TxL in
+/-- the source, regenerated: the migration link is written only by `initialize` (to the default key) and by the
+    two transfer handlers; whole position arrays are assigned only by the two transfer handlers (one copy into the
+    new account, one zeroing of the old) -/
+theorem migration_writers :
+    migratedToWrites = [(.fn_initialize, false), (.fn_transfer_to_new_account, true), (.fn_transfer_to_new_account_pda, true)] ∧
+    lendingArrayWrites = [(.fn_transfer_to_new_account, false), (.fn_transfer_to_new_account, true),
+                          (.fn_transfer_to_new_account_pda, false), (.fn_transfer_to_new_account_pda, true)] := by decide
+
+open Mfi.Gen.Skel in
+/-- both transfer handlers, in source order and unconditionally: flash-loan / receivership / already-migrated
+    checks, then copy array + flags, link, zero the old array, disable the old account -/
+theorem transfer_shape :
+    ∀ h ∈ [(transfer_to_new_account, transfer_to_new_account_cond), (transfer_to_new_account_pda, transfer_to_new_account_pda_cond)],
+      h.1 = [.feeAtaCheck, .acctFlag .inFlashloan, .acctFlag .inReceivership, .migratedCheck, .moveArray, .copyFlags,
+             .setMigratedTo, .zeroArray, .setFlag .disabled] ∧ h.2.all (· == 0) = true := by decide
+
+end transfer
+
 /-! ### non-vacuity -/
 def demo : List Slot :=
   [⟨true, 9, 0, 5, 0, 0, 0⟩, ⟨true, 4, 3, 0, 7, 0, 0⟩] ++ List.replicate 14 emptySlot
 example : (findOrCreate demo 6 0 100).isOk = true := by decide
+def demoAcct : Transfer.MAcct :=
+  { group := 7, authority := 11, slots := demo, disabled := false, flash := false, recv := false, frozen := false, otherFlags := 0,
+    emisDest := 0, migratedFrom := 0, migratedTo := 0, lastUpdate := 5 }
+example : (Transfer.transfer demoAcct 100 7 1 3 false 11 200 12 3 99).isOk = true := by decide
 
 end Mfi.Props.C16
